@@ -75,6 +75,15 @@ def cases(tier: str, seed: int) -> List[Dict[str, Any]]:
     W = WIRING[tier]
     out.append({"kind": "wiring", "L": 1, "m": [1, 1], "r": [1, 1],
                 "Ls": list(range(1, W + 1)) + list(range(W, 0, -3)), "fresh": True})
+    # object history of the MODEL: dtype casts / deep copies after construction leave the taus exact
+    for L in (1, 2, 3, 8):
+        for m, r in [((1, 2), (3, 2)), ((4, 1), (1, 4)), ((1, 1), (1, 1))]:
+            out.append({"kind": "wiring", "L": L, "m": list(m), "r": list(r), "post": ["bfloat16", "half", "float", "double", "deepcopy"],
+                        "fresh": list(m) == [1, 1]})
+    # sweep history: decoders of one depth built in a loop with TEMPORARY rule objects of different hyperparameters
+    for L in (1, 2, 5):
+        out.append({"kind": "sweep", "L": L, "m": [1, 1], "r": [1, 1], "fresh": True,
+                    "pairs": [[[1, 2], [3, 2]], [[4, 1], [1, 4]], [[2, 1], [1, 1]], [[1, 1], [2, 1]], [[1, 4], [1, 2]], [[3, 2], [4, 1]]]})
     # history: ONE rule object queried for several depths in sequence must answer like a
     # fresh one (the default rule object is shared by every TransformerStack/Decoder)
     seqs = [[a, b, a] for a in (1, 2, 3, 5, 8) for b in (1, 2, 4, 7, 16) if a != b]
@@ -156,6 +165,32 @@ def run_case(case: Dict[str, Any]) -> Dict[str, Any]:
             if viol:
                 break
         return {"violations": viol, "steps": steps, "outcome": "reuse_ok" if not viol else "reuse_bad"}
+    if case["kind"] == "sweep":
+        import gc
+
+        import torch
+
+        steps = 0
+        for rep in range(2):
+            for mp, rp in case["pairs"]:
+                mm, rr = Fraction(*mp), Fraction(*rp)
+                dec = uu.TransformerDecoder(hidden_size=8, vocab_size=5, layers=L, heads=1,
+                                            residual_scaling=uu.transformer_residual_scaling_rule(float(mm), float(rr)))
+                model = model_taus_sq(L, mm, rr)
+                for i, layer in enumerate(dec.layers):
+                    for nm, idx in (("mhsa_tau", 2 * i), ("mlp_tau", 2 * i + 1)):
+                        t = getattr(layer, nm)
+                        steps += 1
+                        if not _close(t * t, float(model[idx])):
+                            viol.append({"key": f"sweep|{nm}|stale_or_wrong_tau", "msg":
+                                         f"L={L} mult={mm} ratio={rr} (pass {rep}) layer={i}: {nm}^2={t * t!r} model={float(model[idx])!r}"})
+                del dec
+                gc.collect()
+                if viol:
+                    break
+            if viol:
+                break
+        return {"violations": viol[:2], "steps": steps, "outcome": "sweep_ok" if not viol else "sweep_bad"}
     # ---- wiring: TransformerDecoder assigns tau(2i), tau(2i+1) of 2L to layer i
     import torch
 
@@ -185,6 +220,23 @@ def run_case(case: Dict[str, Any]) -> Dict[str, Any]:
                     break
             if viol:
                 break
+        for step_ in case.get("post", []):
+            import copy
+
+            if viol:
+                break
+            dec = {"bfloat16": lambda d_: d_.to(torch.bfloat16), "half": lambda d_: d_.half(), "float": lambda d_: d_.float(),
+                   "double": lambda d_: d_.double(), "deepcopy": copy.deepcopy}[step_](dec)
+            for i, layer in enumerate(dec.layers):
+                for nm, idx in (("mhsa_tau", 2 * i), ("mlp_tau", 2 * i + 1)):
+                    t = float(getattr(layer, nm))
+                    steps += 1
+                    if not _close(t * t, float(model[idx])):
+                        viol.append({"key": f"wiring|{nm}|changed_by_model_history", "msg":
+                                     f"{tag} after {step_}: layer={i} {nm}^2={t * t!r} model={float(model[idx])!r}"})
+                        break
+                if viol:
+                    break
         if viol:
             break
     return {"violations": viol[:3], "steps": steps, "outcome": "wired" if not viol else "miswired"}
